@@ -18,6 +18,7 @@ mod pairs;
 mod pgen;
 mod sx;
 mod vconv;
+mod vgen;
 mod virev;
 mod vrun;
 mod vtxev;
@@ -409,6 +410,12 @@ fn run_program(src: &str, only: Option<(&str, &[Vec<V>])>, nvec: usize, rng: &mu
 
 pub fn run(args: &Args, out: &mut Out) {
     let mut hist = Hist::default();
+    if args.extra.first().map(|s| s.as_str()) == Some("vgen") {
+        // debugging aid: harness c01 vgen K  -> prints the K-th generated program of the vector stream
+        let k: u64 = args.extra.get(1).and_then(|s| s.parse().ok()).unwrap_or(0);
+        println!("{}", vrun::vprogram(args.seed, k));
+        return;
+    }
     if args.extra.first().map(|s| s.as_str()) == Some("vdump") {
         // debugging aid: harness c01 vdump FILE
         vrun::vdump(&std::fs::read_to_string(&args.extra[1]).unwrap_or_default());
@@ -481,6 +488,16 @@ pub fn run(args: &Args, out: &mut Out) {
             // a panic inside the harness itself (not under a guard of the real code): report, never hide
             hist.add("harness-panic");
             out.case(&format!("C01.fn\t{}\t-\t\t-\t-", one_line(&src)), "harness-panic", &format!("SKIP:harness panic {}", pn));
+        }
+    }
+    // vector / struct / array / enum stream (C01.vfn): the Lean model answers `unsupported-op`, the two Rust evaluators judge
+    let nv = if args.n.is_some() { n } else if args.thorough() { 4000 } else { 250 };
+    for k in 0..nv {
+        let src = vrun::vprogram(args.seed, k);
+        let mut arng = Rng::new(args.seed ^ (k.wrapping_mul(0x9E37_79B9_7F4A_7C15)) ^ 0x5eed);
+        if let Err(pn) = guard(|| vrun::vrun_program(&src, None, 6, &mut arng, out, &mut hist)) {
+            hist.add("harness-panic");
+            out.case(&format!("C01.vfn\t{}\t-\t\t-\t-", one_line(&src)), "harness-panic", &format!("SKIP:harness panic {}", pn));
         }
     }
     // exhaustive operator-nesting shapes (every tier): one tiny function per program, fixed argument grid
